@@ -18,12 +18,51 @@
 //!   MARK:spawn:begin                  just before `Command::spawn`
 //!   MARK:returned:ok|err:<code|none>  first thing after it returned - in WHATEVER process
 //!   MARK:pre:<i>                      inside pre-exec closure i
+//!   MARK:alloc                        an allocator entry by a process that is not the caller while the
+//!                                     spawn window is open (the forked child before exec / exit)
 //!   MARK:spawn:end                    (caller only) after `Child::wait` (or at the end)
 //! A process that passes the return point although it is not the caller exits with 97 at once.
 use std::io::Write;
 use tiny_std::process::{Command, Stdio};
 use tiny_std::{Errno, UnixStr, UnixString};
 use vharness::{json, Value};
+
+/// Between fork and exec / _exit the forked child may only take async-signal-safe steps; in particular
+/// it must not enter the allocator (another thread of the caller may hold the allocator's lock at the
+/// moment of the fork - the child would block for ever, and the parent with it on the sync pipe).
+/// Every allocator entry made while the spawn window is open by a process that is NOT the caller is
+/// announced with a marker the tracer attributes to its task.
+struct WatchedAlloc;
+static WINDOW: std::sync::atomic::AtomicBool = std::sync::atomic::AtomicBool::new(false);
+static CALLER: std::sync::atomic::AtomicI32 = std::sync::atomic::AtomicI32::new(0);
+#[inline]
+fn alloc_entry() {
+    use std::sync::atomic::Ordering::Relaxed;
+    if WINDOW.load(Relaxed) && unsafe { libc::getpid() } != CALLER.load(Relaxed) {
+        let m = b"MARK:alloc";
+        unsafe { libc::write(-1, m.as_ptr().cast(), m.len()) };
+    }
+}
+unsafe impl std::alloc::GlobalAlloc for WatchedAlloc {
+    unsafe fn alloc(&self, l: std::alloc::Layout) -> *mut u8 {
+        alloc_entry();
+        std::alloc::System.alloc(l)
+    }
+    unsafe fn dealloc(&self, p: *mut u8, l: std::alloc::Layout) {
+        alloc_entry();
+        std::alloc::System.dealloc(p, l)
+    }
+    unsafe fn alloc_zeroed(&self, l: std::alloc::Layout) -> *mut u8 {
+        alloc_entry();
+        std::alloc::System.alloc_zeroed(l)
+    }
+    unsafe fn realloc(&self, p: *mut u8, l: std::alloc::Layout, n: usize) -> *mut u8 {
+        alloc_entry();
+        std::alloc::System.realloc(p, l, n)
+    }
+}
+#[global_allocator]
+static GLOBAL: WatchedAlloc = WatchedAlloc;
 
 fn mark(s: &str) {
     let m = format!("MARK:{s}");
@@ -170,7 +209,8 @@ fn main() {
             let code = p.as_i64().unwrap() as i32;
             unsafe {
                 cmd.pre_exec(move || {
-                    let m = [b"MARK:pre:".as_slice(), &[b'1' + i as u8]].concat();
+                    // no allocation here: the closure runs in the forked child
+                    let m = [b'M', b'A', b'R', b'K', b':', b'p', b'r', b'e', b':', b'1' + i as u8];
                     libc::write(-1, m.as_ptr().cast(), m.len());
                     if code == 0 {
                         Ok(())
@@ -211,6 +251,8 @@ fn main() {
             }
         }
         let mut mbuf = [0u8; 64];
+        CALLER.store(me, std::sync::atomic::Ordering::Relaxed);
+        WINDOW.store(true, std::sync::atomic::Ordering::Relaxed);
         unsafe { libc::write(-1, begin.as_ptr().cast(), begin.len()) };
         let res = cmd.spawn();
         let n = {
@@ -227,6 +269,7 @@ fn main() {
             // a second copy of the caller: this is the behaviour the property forbids; get out
             unsafe { libc::_exit(97) };
         }
+        WINDOW.store(false, std::sync::atomic::Ordering::Relaxed);
         // -----------------------------------------------------------------------------------
         match res {
             Err(e) => {
